@@ -135,7 +135,8 @@ def check_orbit(ctx, label, orb, mu, n_phase, displacement, method, order):
     for (stable, direction, j), d in list(seeds.items()):
         if direction == "positive" and (stable, "negative", j) in seeds:
             m = seeds[(stable, "negative", j)]
-            ctx.check(np.abs(d + m).max() <= 1e-6 * np.abs(d).max(), "4:negative seeds mirror positive seeds",
+            # d and m are measured from the REFERENCE base point: their sum is twice the (tiny) library-vs-reference base mismatch
+            ctx.check(np.abs(d + m).max() <= 1e-6 * np.abs(d).max() + 5e-12 * max(1.0, abs(R["lam_u"]) / 1e3), "4:negative seeds mirror positive seeds",
                       {"orbit": label, "stable": stable, "phase": j, "pos": d, "neg": m})
 
 
